@@ -2605,6 +2605,18 @@ class Engine:
                     for s2 in sts:
                         out.append((s2, Num(n.lin)))
                 return out
+        if short == "sorted" and len(args) == 1 and not kwargs and isinstance(args[0], Tup) and len(args[0].items) == 2:
+            # sorted((a, b)) of two numbers: [a, b] where a <= b, [b, a] otherwise
+            na, nb = self.num(args[0].items[0], s), self.num(args[0].items[1], s)
+            if na is not None and nb is not None:
+                out = []
+                c1, c2 = le(na.lin, nb.lin), gt(na.lin, nb.lin)
+                for s2 in assume(("lin", c1[0], c1[1]), s):
+                    out.append((s2, Tup([Num(na.lin), Num(nb.lin)], "list")))
+                for s2 in assume(("lin", c2[0], c2[1]), s):
+                    out.append((s2, Tup([Num(nb.lin), Num(na.lin)], "list")))
+                if out:
+                    return out
         if short == "len" and len(args) == 1:
             a = args[0]
             if isinstance(a, Tup):
